@@ -87,12 +87,14 @@ type Exec struct {
 	entVC     map[*MapEnt]vclock
 	permCache [][]*MapEnt
 	decided   map[string]bool
+	lastIn    ssa.Instruction
 	hostDone  chan struct{}
 }
 
 type frame struct {
 	fn     *ssa.Function
-	regs   map[ssa.Value]Val
+	regs   []Val
+	idx    map[ssa.Value]int
 	defers []deferred
 	result Val
 }
@@ -281,11 +283,11 @@ func (x *Exec) get(f *frame, v ssa.Value) Val {
 	case *ssa.Builtin:
 		return FuncV{Bi: u}
 	}
-	r, ok := f.regs[v]
+	i, ok := f.idx[v]
 	if !ok {
-		panic(unsupported{"unset register " + v.Name() + " in " + f.fn.String()})
+		panic(unsupported{"unknown register " + v.Name() + " in " + f.fn.String()})
 	}
-	return r
+	return f.regs[i]
 }
 
 func (x *Exec) binop(op token.Token, a, b Val, t types.Type, pos func() string) Val {
@@ -615,32 +617,40 @@ func (x *Exec) call(fv FuncV, args []Val, site string) Val {
 		return fv.Native(x, args)
 	}
 	if fv.Fn == nil {
-		panic(panicV{msg: "call of nil func at " + site})
+		panic(panicV{msg: "call of nil func at " + x.here(site)})
 	}
 	fn := fv.Fn
-	if r, ok := x.w.redirect[fn.String()]; ok {
-		if x.redirectApplies(fn, args) {
-			fn = r
-			x.stubsUsed["model:"+fv.Fn.String()] = true
+	if _, plain := x.w.plain.Load(fn); !plain {
+		name := x.w.name(fn)
+		if r, ok := x.w.redirect[name]; ok {
+			if x.redirectApplies(fn, args) {
+				fn = r
+				x.stubsUsed["model:"+name] = true
+			}
 		}
-	}
-	if r, ok := x.nativeStrings(fv.Fn, args); ok {
-		return r
-	}
-	if strings.HasPrefix(fn.String(), ndPath+".") && fn.Name() != "init" {
-		return x.intrinsic(fn, args, site)
-	}
-	if r, ok := x.stub(fn, args, site); ok {
-		return r
-	}
-	if r, ok := x.reflectStub(fn, args); ok {
-		return r
-	}
-	if fn.Blocks == nil {
-		panic(unsupported{"no body: " + fn.String() + " at " + site})
-	}
-	if fn.Name() == "init" && fn.Synthetic == "package initializer" && !x.w.initOK(fn.Pkg) {
-		return nil
+		if r, ok := x.nativeStrings(fv.Fn, args); ok {
+			return r
+		}
+		if strings.HasPrefix(x.w.name(fn), ndPath+".") && fn.Name() != "init" {
+			return x.intrinsic(fn, args, site)
+		}
+		if r, ok := x.stub(fn, args, site); ok {
+			return r
+		}
+		if r, ok := x.reflectStub(fn, args); ok {
+			return r
+		}
+		if fn.Blocks == nil {
+			panic(unsupported{"no body: " + x.w.name(fn) + " at " + x.here(site)})
+		}
+		if fn.Name() == "init" && fn.Synthetic == "package initializer" && !x.w.initOK(fn.Pkg) {
+			return nil
+		}
+		if fn == fv.Fn && (fn.Pkg == nil || fn.Pkg.Pkg.Path() != "strings") {
+			if _, isRedirect := x.w.redirect[name]; !isRedirect {
+				x.w.plain.Store(fn, true)
+			}
+		}
 	}
 	x.depth++
 	maxd := x.opts.MaxDepth
@@ -648,15 +658,16 @@ func (x *Exec) call(fv FuncV, args []Val, site string) Val {
 		maxd = 400
 	}
 	if x.depth > maxd {
-		panic(budgetExceeded{"call depth > " + fmt.Sprint(maxd) + " at " + site})
+		panic(budgetExceeded{"call depth > " + fmt.Sprint(maxd) + " at " + x.here(site)})
 	}
 	x.funcs[fn]++
-	f := &frame{fn: fn, regs: make(map[ssa.Value]Val, 32)}
+	idx := x.w.regIndex(fn)
+	f := &frame{fn: fn, regs: make([]Val, len(idx)), idx: idx}
 	for i, p := range fn.Params {
-		f.regs[p] = args[i]
+		f.regs[idx[p]] = args[i]
 	}
 	for i, fvv := range fn.FreeVars {
-		f.regs[fvv] = fv.Bind[i]
+		f.regs[idx[fvv]] = fv.Bind[i]
 	}
 	return x.runFrame(f)
 }
@@ -695,6 +706,16 @@ func (x *Exec) methodFor(t types.Type, m *types.Func) *ssa.Function {
 		panic(unsupported{"abstract method " + m.Name() + " of " + t.String()})
 	}
 	return fn
+}
+
+func (x *Exec) here(site string) string {
+	if site != "" {
+		return site
+	}
+	if x.lastIn != nil {
+		return x.pos(x.lastIn)
+	}
+	return "?"
 }
 
 func (x *Exec) pos(in ssa.Instruction) string {
@@ -750,17 +771,18 @@ func (x *Exec) run(f *frame) Val {
 				vals[i] = x.get(f, blk.Instrs[i].(*ssa.Phi).Edges[idx])
 			}
 			for i := 0; i < nphi; i++ {
-				f.regs[blk.Instrs[i].(*ssa.Phi)] = vals[i]
+				f.regs[f.idx[blk.Instrs[i].(*ssa.Phi)]] = vals[i]
 			}
 		}
 		for _, ins := range blk.Instrs[nphi:] {
 			x.steps++
+			x.lastIn = ins
 			if x.steps > maxSteps {
 				panic(budgetExceeded{fmt.Sprintf("more than %d SSA steps", maxSteps)})
 			}
 			switch in := ins.(type) {
 			case *ssa.Alloc:
-				f.regs[in] = PtrV{C: &Cell{V: x.zero(in.Type().(*types.Pointer).Elem())}}
+				f.regs[f.idx[in]] = PtrV{C: &Cell{V: x.zero(in.Type().(*types.Pointer).Elem())}}
 			case *ssa.UnOp:
 				v := x.get(f, in.X)
 				switch in.Op {
@@ -769,26 +791,26 @@ func (x *Exec) run(f *frame) Val {
 					if p.C == nil {
 						panic(panicV{msg: "runtime error: invalid memory address or nil pointer dereference at " + x.pos(in)})
 					}
-					f.regs[in] = copyVal(x.loadCell(p.C, func() string { return x.pos(in) }))
+					f.regs[f.idx[in]] = copyVal(x.loadCell(p.C, func() string { return x.pos(in) }))
 				case token.NOT:
-					f.regs[in] = notB(v.(BoolV))
+					f.regs[f.idx[in]] = notB(v.(BoolV))
 				case token.SUB:
 					b := v.(BV)
-					f.regs[in] = x.binop(token.SUB, cbv(b.W, 0), b, in.Type(), nil)
+					f.regs[f.idx[in]] = x.binop(token.SUB, cbv(b.W, 0), b, in.Type(), nil)
 				case token.ARROW:
-					f.regs[in] = x.chanRecv(v.(*ChanV), in.CommaOk, in.Type(), x.pos(in))
+					f.regs[f.idx[in]] = x.chanRecv(v.(*ChanV), in.CommaOk, in.Type(), x.pos(in))
 				case token.XOR:
 					b := v.(BV)
 					if b.Con {
-						f.regs[in] = cbv(b.W, ^b.C)
+						f.regs[f.idx[in]] = cbv(b.W, ^b.C)
 					} else {
-						f.regs[in] = BV{W: b.W, T: "(bvnot " + b.T + ")"}
+						f.regs[f.idx[in]] = BV{W: b.W, T: "(bvnot " + b.T + ")"}
 					}
 				default:
 					panic(unsupported{"unop " + in.Op.String()})
 				}
 			case *ssa.BinOp:
-				f.regs[in] = x.binop(in.Op, x.get(f, in.X), x.get(f, in.Y), in.X.Type(), func() string { return x.pos(in) })
+				f.regs[f.idx[in]] = x.binop(in.Op, x.get(f, in.X), x.get(f, in.Y), in.X.Type(), func() string { return x.pos(in) })
 			case *ssa.Store:
 				p := x.get(f, in.Addr).(PtrV)
 				if p.C == nil {
@@ -804,9 +826,9 @@ func (x *Exec) run(f *frame) Val {
 				if !ok {
 					panic(unsupported{fmt.Sprintf("fieldaddr on %T at %s", p.C.V, x.pos(in))})
 				}
-				f.regs[in] = PtrV{C: sv.F[in.Field]}
+				f.regs[f.idx[in]] = PtrV{C: sv.F[in.Field]}
 			case *ssa.Field:
-				f.regs[in] = copyVal(x.get(f, in.X).(*StructV).F[in.Field].V)
+				f.regs[f.idx[in]] = copyVal(x.get(f, in.X).(*StructV).F[in.Field].V)
 			case *ssa.IndexAddr:
 				i := x.concInt(x.get(f, in.Index), "index")
 				switch b := x.get(f, in.X).(type) {
@@ -814,7 +836,7 @@ func (x *Exec) run(f *frame) Val {
 					if i < 0 || i >= b.Len {
 						panic(panicV{msg: fmt.Sprintf("runtime error: index out of range [%d] with length %d at %s", i, b.Len, x.pos(in))})
 					}
-					f.regs[in] = PtrV{C: b.A.E[b.Off+i]}
+					f.regs[f.idx[in]] = PtrV{C: b.A.E[b.Off+i]}
 				case PtrV:
 					if b.C == nil {
 						panic(panicV{msg: "nil array pointer at " + x.pos(in)})
@@ -823,7 +845,7 @@ func (x *Exec) run(f *frame) Val {
 					if i < 0 || i >= len(a.E) {
 						panic(panicV{msg: "runtime error: array index out of range at " + x.pos(in)})
 					}
-					f.regs[in] = PtrV{C: a.E[i]}
+					f.regs[f.idx[in]] = PtrV{C: a.E[i]}
 				default:
 					panic(unsupported{"indexaddr base"})
 				}
@@ -837,12 +859,12 @@ func (x *Exec) run(f *frame) Val {
 					if i < 0 || i >= len(b.B) {
 						panic(panicV{msg: fmt.Sprintf("runtime error: index out of range [%d] with length %d at %s", i, len(b.B), x.pos(in))})
 					}
-					f.regs[in] = b.B[i]
+					f.regs[f.idx[in]] = b.B[i]
 				case *ArrV:
 					if i < 0 || i >= len(b.E) {
 						panic(panicV{msg: "runtime error: array index out of range at " + x.pos(in)})
 					}
-					f.regs[in] = copyVal(b.E[i].V)
+					f.regs[f.idx[in]] = copyVal(b.E[i].V)
 				default:
 					panic(unsupported{"index base"})
 				}
@@ -853,7 +875,7 @@ func (x *Exec) run(f *frame) Val {
 					if i < 0 || i >= len(b.B) {
 						panic(panicV{msg: fmt.Sprintf("runtime error: index out of range [%d] with length %d at %s", i, len(b.B), x.pos(in))})
 					}
-					f.regs[in] = b.B[i]
+					f.regs[f.idx[in]] = b.B[i]
 				case *MapV:
 					e, ok := x.mapLookup(b, x.get(f, in.Index))
 					var v Val
@@ -863,9 +885,9 @@ func (x *Exec) run(f *frame) Val {
 						v = x.zero(in.X.Type().Underlying().(*types.Map).Elem())
 					}
 					if in.CommaOk {
-						f.regs[in] = TupleV{v, cbool(ok)}
+						f.regs[f.idx[in]] = TupleV{v, cbool(ok)}
 					} else {
-						f.regs[in] = v
+						f.regs[f.idx[in]] = v
 					}
 				default:
 					panic(unsupported{"lookup base"})
@@ -882,9 +904,9 @@ func (x *Exec) run(f *frame) Val {
 					m.Ent = append(m.Ent, &MapEnt{K: k, V: copyVal(x.get(f, in.Value))})
 				}
 			case *ssa.MakeMap:
-				f.regs[in] = &MapV{}
+				f.regs[f.idx[in]] = &MapV{}
 			case *ssa.MakeChan:
-				f.regs[in] = &ChanV{cap: x.concInt(x.get(f, in.Size), "chan size"), cvc: vclock{}}
+				f.regs[f.idx[in]] = &ChanV{cap: x.concInt(x.get(f, in.Size), "chan size"), cvc: vclock{}}
 			case *ssa.Send:
 				x.chanSend(x.get(f, in.Chan).(*ChanV), x.get(f, in.X), x.pos(in))
 			case *ssa.MakeSlice:
@@ -901,7 +923,7 @@ func (x *Exec) run(f *frame) Val {
 				for i := range a.E {
 					a.E[i] = &Cell{V: x.zero(et)}
 				}
-				f.regs[in] = SliceV{A: a, Len: n, Cap: c}
+				f.regs[f.idx[in]] = SliceV{A: a, Len: n, Cap: c}
 			case *ssa.Slice:
 				lo, hi, mx := 0, -1, -1
 				if in.Low != nil {
@@ -927,7 +949,7 @@ func (x *Exec) run(f *frame) Val {
 					if lo < 0 || lo > hi || hi > len(b.B) {
 						panic(panicV{msg: fmt.Sprintf("runtime error: slice bounds out of range [%d:%d] with length %d at %s", lo, hi, len(b.B), x.pos(in))})
 					}
-					f.regs[in] = StrV{B: b.B[lo:hi]}
+					f.regs[f.idx[in]] = StrV{B: b.B[lo:hi]}
 				case SliceV:
 					if hi < 0 {
 						hi = b.Len
@@ -939,9 +961,9 @@ func (x *Exec) run(f *frame) Val {
 						panic(panicV{msg: fmt.Sprintf("runtime error: slice bounds out of range [%d:%d:%d] with capacity %d at %s", lo, hi, mx, b.Cap, x.pos(in))})
 					}
 					if b.A == nil {
-						f.regs[in] = SliceV{}
+						f.regs[f.idx[in]] = SliceV{}
 					} else {
-						f.regs[in] = SliceV{A: b.A, Off: b.Off + lo, Len: hi - lo, Cap: mx - lo}
+						f.regs[f.idx[in]] = SliceV{A: b.A, Off: b.Off + lo, Len: hi - lo, Cap: mx - lo}
 					}
 				case PtrV:
 					a := b.C.V.(*ArrV)
@@ -954,7 +976,7 @@ func (x *Exec) run(f *frame) Val {
 					if lo < 0 || lo > hi || hi > mx || mx > len(a.E) {
 						panic(panicV{msg: "runtime error: slice bounds out of range at " + x.pos(in)})
 					}
-					f.regs[in] = SliceV{A: a, Off: lo, Len: hi - lo, Cap: mx - lo}
+					f.regs[f.idx[in]] = SliceV{A: a, Off: lo, Len: hi - lo, Cap: mx - lo}
 				default:
 					panic(unsupported{"slice base"})
 				}
@@ -965,14 +987,14 @@ func (x *Exec) run(f *frame) Val {
 					if b != nil {
 						it.ents = x.rangeOrder(b.Ent)
 					}
-					f.regs[in] = it
+					f.regs[f.idx[in]] = it
 				case StrV:
 					if _, ok := b.concrete(); !ok {
 						// symbolic bytes: only ASCII-free decoding is not modelled
 						panic(unsupported{"range over symbolic string at " + x.pos(in)})
 					}
 					bb := b
-					f.regs[in] = &mapIter{str: &bb}
+					f.regs[f.idx[in]] = &mapIter{str: &bb}
 				default:
 					panic(unsupported{"range over non-map"})
 				}
@@ -982,43 +1004,43 @@ func (x *Exec) run(f *frame) Val {
 				if it.str != nil {
 					s, _ := it.str.concrete()
 					if it.i >= len(s) {
-						f.regs[in] = TupleV{cbool(false), cbv(64, 0), cbv(32, 0)}
+						f.regs[f.idx[in]] = TupleV{cbool(false), cbv(64, 0), cbv(32, 0)}
 					} else {
 						r, size := utf8.DecodeRuneInString(s[it.i:])
-						f.regs[in] = TupleV{cbool(true), cbv(64, uint64(it.i)), cbv(32, uint64(r))}
+						f.regs[f.idx[in]] = TupleV{cbool(true), cbv(64, uint64(it.i)), cbv(32, uint64(r))}
 						it.i += size
 					}
 					break
 				}
 				if it.i >= len(it.ents) {
-					f.regs[in] = TupleV{cbool(false), x.zeroOrNil(tt.At(1).Type()), x.zeroOrNil(tt.At(2).Type())}
+					f.regs[f.idx[in]] = TupleV{cbool(false), x.zeroOrNil(tt.At(1).Type()), x.zeroOrNil(tt.At(2).Type())}
 				} else {
 					e := it.ents[it.i]
 					it.i++
-					f.regs[in] = TupleV{cbool(true), e.K, copyVal(e.V)}
+					f.regs[f.idx[in]] = TupleV{cbool(true), e.K, copyVal(e.V)}
 				}
 			case *ssa.ChangeType:
-				f.regs[in] = x.get(f, in.X)
+				f.regs[f.idx[in]] = x.get(f, in.X)
 			case *ssa.ChangeInterface:
-				f.regs[in] = x.get(f, in.X)
+				f.regs[f.idx[in]] = x.get(f, in.X)
 			case *ssa.Convert:
-				f.regs[in] = x.convert(x.get(f, in.X), in.X.Type(), in.Type())
+				f.regs[f.idx[in]] = x.convert(x.get(f, in.X), in.X.Type(), in.Type())
 			case *ssa.MakeInterface:
-				f.regs[in] = IfaceV{T: in.X.Type(), V: copyVal(x.get(f, in.X))}
+				f.regs[f.idx[in]] = IfaceV{T: in.X.Type(), V: copyVal(x.get(f, in.X))}
 			case *ssa.MakeClosure:
 				b := make([]Val, len(in.Bindings))
 				for i, v := range in.Bindings {
 					b[i] = x.get(f, v)
 				}
-				f.regs[in] = FuncV{Fn: in.Fn.(*ssa.Function), Bind: b}
+				f.regs[f.idx[in]] = FuncV{Fn: in.Fn.(*ssa.Function), Bind: b}
 			case *ssa.Extract:
-				f.regs[in] = x.get(f, in.Tuple).(TupleV)[in.Index]
+				f.regs[f.idx[in]] = x.get(f, in.Tuple).(TupleV)[in.Index]
 			case *ssa.TypeAssert:
-				f.regs[in] = x.typeAssert(in, x.get(f, in.X))
+				f.regs[f.idx[in]] = x.typeAssert(in, x.get(f, in.X))
 			case *ssa.Call:
-				f.regs[in] = x.doCall(f, &in.Call, x.pos(in))
+				f.regs[f.idx[in]] = x.doCall(f, &in.Call, "")
 			case *ssa.Defer:
-				fv, args := x.resolveCall(f, &in.Call, x.pos(in))
+				fv, args := x.resolveCall(f, &in.Call, "")
 				f.defers = append(f.defers, deferred{fv: fv, args: args})
 			case *ssa.Go:
 				fv, args := x.resolveCall(f, &in.Call, x.pos(in))
@@ -1102,7 +1124,7 @@ func (x *Exec) resolveCall(f *frame, c *ssa.CallCommon, site string) (FuncV, []V
 	if c.IsInvoke() {
 		iv := x.get(f, c.Value).(IfaceV)
 		if iv.T == nil {
-			panic(panicV{msg: "runtime error: invalid memory address or nil pointer dereference (method call on nil interface) at " + site})
+			panic(panicV{msg: "runtime error: invalid memory address or nil pointer dereference (method call on nil interface) at " + x.here(site)})
 		}
 		if rv, ok := iv.V.(RTypeV); ok { // reflect.Type methods
 			_ = rv
@@ -1234,7 +1256,7 @@ func (x *Exec) builtin(name string, args []Val, c *ssa.CallCommon, site string) 
 		x.mapDelete(args[0].(*MapV), args[1])
 		return nil
 	case "panic":
-		panic(panicV{msg: "panic() at " + site, val: args[0]})
+		panic(panicV{msg: "panic() at " + x.here(site), val: args[0]})
 	case "recover":
 		return IfaceV{}
 	case "print", "println":
@@ -1255,7 +1277,7 @@ func (x *Exec) builtin(name string, args []Val, c *ssa.CallCommon, site string) 
 			return b
 		}
 	}
-	panic(unsupported{"builtin " + name + " at " + site})
+	panic(unsupported{"builtin " + name + " at " + x.here(site)})
 }
 
 // run package initialiser; calls to init of packages outside the whitelist are skipped in call()
